@@ -455,11 +455,15 @@ def cases(e, guard=()):
 ARITH_LIFT = {"+", "-", "*", "/", "neg", "**"}
 
 
+_RAW_OF = {}
+
+
 def _arith_ite_conds(e, acc):
     if not isinstance(e, tuple) or not e:
         return
     if e[0] == "ite":
         c = canon(e[1])
+        _RAW_OF.setdefault(c, e[1])
         if c not in acc:
             acc.append(c)
         _arith_ite_conds(e[2], acc)
@@ -482,15 +486,15 @@ def _resolve_ites(e, assign):
     return e
 
 
-def split_cases(e, limit=8):
+def split_cases(e, limit=8, raw=False):
     """Lift gated phi nodes out of arithmetic: [(literal-tuple, phi-free value)] for every consistent
     assignment of the phi conditions that occur in arithmetic position under the top of `e`."""
     conds = []
     _arith_ite_conds(e, conds)
     if not conds:
-        return [((), e)]
+        return [((), e, ())] if raw else [((), e)]
     if len(conds) > limit:
-        return [((), e)]
+        return [((), e, ())] if raw else [((), e)]
     out = []
     n = len(conds)
     seen = set()
@@ -510,7 +514,10 @@ def split_cases(e, limit=8):
             lits.extend(_lits(c, pol))
         if _contradiction(lits):
             continue
-        out.append((tuple(lits), v))
+        if raw:
+            out.append((tuple(lits), v, tuple((_RAW_OF.get(c, c), pol) for c, pol in g)))
+        else:
+            out.append((tuple(lits), v))
     return out
 
 
